@@ -102,6 +102,7 @@ theorem step_cutS (C : Cfg Z) (cap : Nat) (s : GW Z) (o : Op) (hw : ∀ b, o ≠
   | set k v => rfl
   | add k v => rfl
   | del k => rfl
+  | unset k => rfl
 
 /-! ### a decided machine only appends to the body -/
 
@@ -183,6 +184,7 @@ theorem runF_close (C : Cfg Z) (cap : Nat) (stop : Bool) (ops : List Op) (s : GW
       | set k v => rfl
       | add k v => rfl
       | del k => rfl
+      | unset k => rfl
     cases o with
     | w b =>
       have hrun : GW.run C s (.w b :: r) = GW.run C (GW.write C s b) r := rfl
@@ -230,6 +232,7 @@ theorem runF_close (C : Cfg Z) (cap : Nat) (stop : Bool) (ops : List Op) (s : GW
     | set k v => rw [hother (by intro b hb; cases hb)]; exact ih _
     | add k v => rw [hother (by intro b hb; cases hb)]; exact ih _
     | del k => rw [hother (by intro b hb; cases hb)]; exact ih _
+    | unset k => rw [hother (by intro b hb; cases hb)]; exact ih _
 
 /-! ### what the others do to the pool in the meantime -/
 
@@ -294,6 +297,7 @@ theorem run_initial (C : Cfg Z) (ops : List Op) (hdr : Hdr) (pool : List Z) :
     | set k v => simpa [decision, GW.run, GW.step, hops, hop] using ih (hset hdr k v)
     | add k v => simpa [decision, GW.run, GW.step, hops, hop] using ih (hadd hdr k v)
     | del k => simpa [decision, GW.run, GW.step, hops, hop] using ih (hdel hdr k)
+    | unset k => simpa [decision, GW.run, GW.step, hops, hop] using ih (hnil hdr k)
     | fl => simpa [decision, GW.run, GW.step, hops, hop] using ih hdr
     | wh code =>
       by_cases hinfo : informational code = true
@@ -382,6 +386,7 @@ theorem step_decided (C : Cfg Z) (s : GW Z) (o : Op) (hd : s.dec.isUndecided = f
     | set k v => exact ⟨rfl, rfl⟩
     | add k v => exact ⟨rfl, rfl⟩
     | del k => exact ⟨rfl, rfl⟩
+    | unset k => exact ⟨rfl, rfl⟩
   | plain =>
     cases o with
     | wh c => simp only [GW.step, GW.writeHeader]; split <;> exact ⟨rfl, rfl⟩
@@ -390,6 +395,7 @@ theorem step_decided (C : Cfg Z) (s : GW Z) (o : Op) (hd : s.dec.isUndecided = f
     | set k v => exact ⟨rfl, rfl⟩
     | add k v => exact ⟨rfl, rfl⟩
     | del k => exact ⟨rfl, rfl⟩
+    | unset k => exact ⟨rfl, rfl⟩
 
 theorem trace_decided (C : Cfg Z) (ops : List Op) (s : GW Z) (hd : s.dec.isUndecided = false) :
     GW.trace C s ops = [] ∧ (GW.run C s ops).dec.isGzip = s.dec.isGzip := by
@@ -443,6 +449,7 @@ theorem served_trace_run (C : Cfg Z) (ops : List Op) (hdr : Hdr) (pool : List Z)
     | set k v => exact hquiet (hset hdr k v) rfl
     | add k v => exact hquiet (hadd hdr k v) rfl
     | del k => exact hquiet (hdel hdr k) rfl
+    | unset k => exact hquiet (hnil hdr k) rfl
     | fl => exact hquiet hdr rfl
     | wh code =>
       by_cases hinfo : informational code = true
